@@ -1,0 +1,8 @@
+//go:build !verif
+// +build !verif
+
+package executor
+
+import "mvdan.cc/sh/v3/interp"
+
+func verifApply(*interp.Runner) {}
